@@ -243,6 +243,24 @@ def gen_plan(run_seed, tier, index):
             c['damage'] = {'descr': descr,
                            'file': tgt if tgt is not None else c.get('path')}
             g.classes, g.n, g.aliases = saved[0], g.n, g.aliases
+        elif kind < 0.56:
+            # a qualifier declaration that differs from the one in the
+            # repository is rejected by the repository; later MOF that uses
+            # the qualifier must be compiled against what the repository
+            # really holds
+            qn, qt = r.choice([('Description', 'uint32'),
+                               ('Description', 'boolean'),
+                               ('Key', 'string'), ('MaxLen', 'string')])
+            text = 'Qualifier %s : %s = null, Scope(any);\n' % (qn, qt)
+            if c['kind'] == 'string':
+                c['text'] = text
+            else:
+                files[c['path']] = text
+            c['fault'] = {'method': 'SetQualifier', 'k': 1,
+                          'code': r.choice([1, 2, 4, 7, 16]),
+                          'persistent': True}
+            c['qual_redecl'] = qn
+            g.classes = saved[0]
         elif kind < 0.7:
             c['fault'] = {'method': r.choice(FAULT_METHODS),
                           'k': r.choice([1, 1, 2, 3, 5]),
@@ -251,12 +269,35 @@ def gen_plan(run_seed, tier, index):
             g.classes = saved[0]
         elif kind < 0.85:
             fk = r.choice(['self', 'mutual', 'missing', 'dir', 'binary',
-                           'missing_main', 'empty', 'bom', 'crlf'])
+                           'missing_main', 'empty', 'bom', 'crlf',
+                           'self_dot', 'mutual_dotdot', 'ns_unknown_ref'])
             c['include_fault'] = fk
             name = 'inc/f%d.mof' % ci
             inc = '#pragma include ("%s")\n' % name
             if fk == 'self':
                 files[name] = '#pragma include ("f%d.mof")\n' % ci
+            elif fk == 'ns_unknown_ref':
+                # the first class in a namespace entered with a pragma
+                # refers to a class that does not exist anywhere
+                src = '#pragma namespace ("%s")\nclass TST_NR%d {\n   ' \
+                    'NoSuchCls%d REF r;\n   [EmbeddedInstance("NoSuchE")]' \
+                    ' string e;\n};\n' % (r.choice(['root/other', 'ns2',
+                                                    'root/cimv2']), ci, ci)
+                if c['kind'] == 'string':
+                    c['text'] = src
+                else:
+                    files[c['path']] = src
+                inc = ''
+            elif fk == 'self_dot':
+                # the same file under another spelling of its path
+                files[name] = '#pragma include ("%s")\n' % r.choice(
+                    ['./f%d.mof' % ci, '../inc/f%d.mof' % ci,
+                     'sub/../f%d.mof' % ci])
+                files['inc/sub/keep%d.mof' % ci] = ''
+            elif fk == 'mutual_dotdot':
+                files[name] = '#pragma include ("sub/g%d.mof")\n' % ci
+                files['inc/sub/g%d.mof' % ci] = \
+                    '#pragma include ("../f%d.mof")\n' % ci
             elif fk == 'mutual':
                 files[name] = '#pragma include ("g%d.mof")\n' % ci
                 files['inc/g%d.mof' % ci] = \
@@ -563,6 +604,8 @@ def judge(world, c, exc):
         texts[None] = c['text']
     for rel, content in world.plan['files'].items():
         if isinstance(content, str):
+            # (files are read in text mode: universal newlines)
+            content = content.replace('\r\n', '\n').replace('\r', '\n')
             texts[os.path.join(root, rel)] = content
             texts[rel] = content
     f = exc.file
@@ -608,6 +651,16 @@ def judge(world, c, exc):
                           name, exc.column, exc.lineno, f, len(ln),
                           describe(c))))
     ctx = exc.context
+    if ctx and len(ctx) >= 2 and lexical and \
+            1 <= exc.lineno <= len(lines) and \
+            ctx[-2].strip('\r\n') != lines[exc.lineno - 1].strip('\r\n'):
+        # scanner / grammar errors point at a token: line number and context
+        # line must belong together
+        V.append(('position/line-and-context-disagree',
+                  '%s: reported line %d of %r is %r, but the context shows '
+                  '%r (%s)' % (name, exc.lineno, f,
+                               lines[exc.lineno - 1][:60],
+                               ctx[-2][:60], describe(c))))
     if ctx and len(ctx) >= 2:
         cl = ctx[-2].strip('\r\n')
         if not any(cl == x.strip('\r\n') or (cl and cl in x)
